@@ -776,6 +776,13 @@ func scanFields(buf []byte, i int) (int, []byte, error) {
 			continue
 		}
 
+		// A dangling escape character at the end of the input would escape
+		// whatever is appended when the point is written back out (the
+		// timestamp separator), changing the point.
+		if buf[i] == '\\' && !quoted {
+			return i, buf[start:i], fmt.Errorf("invalid field format")
+		}
+
 		// If the value is quoted, scan until we get to the end quote
 		// Only quote values in the field value since quotes are not significant
 		// in the field key
